@@ -82,6 +82,12 @@ var c17WireOrder func(refmodel.Mapping) refmodel.Mapping
 
 // c17One evaluates every accessor clause on one options map.
 func c17One(r *core.Run, opts map[string]string, viaParser bool, variant string) {
+	c17Eval(r, opts, viaParser, variant, true)
+}
+
+// c17Eval: full=false evaluates the host, port and lookup clauses only (no history steps) - used by the
+// bounded-exhaustive string enumerations, where the number of option maps is in the millions.
+func c17Eval(r *core.Run, opts map[string]string, viaParser bool, variant string, full bool) {
 	r.Evaluations.Add(1)
 	path := "NewRouterAddress"
 	if viaParser {
@@ -154,7 +160,7 @@ func c17One(r *core.Run, opts map[string]string, viaParser bool, variant string)
 	}
 	// ---- history: the address handed out is the caller's; what it does with it must not reach a later,
 	// independent lookup of the same literal (H2), and a later lookup must not overwrite it (H1)
-	if ipa, ok := addr.(*net.IPAddr); ok && herr == nil && ipa != nil {
+	if ipa, ok := addr.(*net.IPAddr); full && ok && herr == nil && ipa != nil {
 		render := func(a net.Addr) string {
 			x, ok := a.(*net.IPAddr)
 			if !ok || x == nil {
@@ -219,10 +225,16 @@ func c17One(r *core.Run, opts map[string]string, viaParser bool, variant string)
 		ks, _ := data.ToI2PString(k)
 		got := ra.GetOption(ks)
 		want, present := opts[k]
+		if ra.HasOption(ks) != present || ra.CheckOption(k) != present {
+			bad("hasoption", fmt.Sprintf("HasOption/CheckOption(%q) = %v/%v, key present = %v", k, ra.HasOption(ks), ra.CheckOption(k), present))
+		}
 		if present {
 			gs, err := got.Data()
 			if got == nil || err != nil || gs != want {
 				bad("getoption", fmt.Sprintf("GetOption(%q) = %q (err %v), stored value %q", k, gs, err, want))
+			}
+			if !full {
+				continue
 			}
 			// history: overwrite the returned string's bytes, then look the key up on a fresh value
 			if rx, err := c17Addr(opts, viaParser); err == nil && rx != nil { // (on its own value: an accessor may legitimately expose its receiver's storage)
@@ -241,16 +253,13 @@ func c17One(r *core.Run, opts map[string]string, viaParser bool, variant string)
 			gs, _ := got.Data()
 			bad("getoption", fmt.Sprintf("GetOption(%q) = %q but no such key is stored", k, gs))
 		}
-		if ra.HasOption(ks) != present || ra.CheckOption(k) != present {
-			bad("hasoption", fmt.Sprintf("HasOption/CheckOption(%q) = %v/%v, key present = %v", k, ra.HasOption(ks), ra.CheckOption(k), present))
-		}
 	}
 	r.Distinct([]byte(path), []byte(sb.String()))
 }
 
 func runC17(r *core.Run) {
 	r.Level = "exploration"
-	r.Rule = "full product of a 50-string host menu (canonical and non-canonical IPv4/IPv6 literals, IPv4-mapped, zones, brackets, host:port, whitespace, leading zeros, hostnames, hex-looking names, empty, 255 bytes) x 34-string port menu (decimal, boundaries, overflow incl. > 2^64, signed, padded, whitespace, non-ASCII digits, empty) under the exact keys, plus key variants (prefix / extension / case / NUL-suffixed keys, decoys, absent) x caps {absent,4,6,46,B,''}; through NewRouterAddress and ReadRouterAddress(reference bytes); static key / IV values of every length 0..40. Oracle: independent three-valued IP-literal and port recognisers. non-trivial = distinct (path, option map) evaluated"
+	r.Rule = "full product of a 50-string host menu (canonical and non-canonical IPv4/IPv6 literals, IPv4-mapped, zones, brackets, host:port, whitespace, leading zeros, hostnames, hex-looking names, empty, 255 bytes) x 34-string port menu (decimal, boundaries, overflow incl. > 2^64, signed, padded, whitespace, non-ASCII digits, empty) under the exact keys, plus key variants (prefix / extension / case / NUL-suffixed keys, decoys, absent) x caps {absent,4,6,46,B,''}; through NewRouterAddress and ReadRouterAddress(reference bytes); static key / IV values of every length 0..40; bounded-exhaustive string spaces (every decimal port 0..70000 as n, 0n, +n, -n; every string of length <= 4 [thorough: 7] over {0 1 5 6 9 + - space}; every dotted quad over 13 octet spellings; every string of length <= 4 [thorough: 6] over {0 1 2 5 9 . : a f g % space}). Oracle: independent three-valued IP-literal and port recognisers. non-trivial = distinct (path, option map) evaluated"
 	r.Assume("Unspecified inputs (leading zeros in a dotted quad, zone identifiers, '+' or zero-padded ports) are bound only by the consistency clauses (Host ok <=> HasValidHost, Port ok <=> HasValidPort, canonical output)")
 	type job struct {
 		opts    map[string]string
@@ -378,6 +387,7 @@ func runC17(r *core.Run) {
 			r.Distinct([]byte("keylen"), []byte{byte(n)}, []byte(fmt.Sprint(viaParser)))
 		}
 	}
+	c17Bounded(r)
 	r.Sample(map[string]any{"host": "::ffff:10.1.2.3", "port": "+80", "keys": "exact", "paths": []string{"NewRouterAddress", "ReadRouterAddress"}})
 	r.Sample(map[string]any{"host": "router.example.com", "expect": "Host() error, HasValidHost() false"})
 }
@@ -394,4 +404,64 @@ func replayC17(r *core.Run, c core.Case) {
 		}
 	}
 	c17One(r, opts, c.Args["parser"] == "true", c.Args["variant"])
+}
+
+// c17Bounded: bounded-exhaustive string spaces for the two grammars the accessors recognise.
+//   - every decimal port 0..70000, canonical and with one leading zero, '+' and '-' sign;
+//   - every string of length <= L over the port alphabet {0 1 5 6 9 + - space};
+//   - every dotted quad over a 13-value octet menu (boundaries of each decimal width and of the octet range);
+//   - every string of length <= L over the host alphabet {0 1 2 5 9 . : a f g % space}.
+// L is 4 in the quick tier and 6 (hosts) / 7 (ports) in the thorough tier.
+func c17Bounded(r *core.Run) {
+	var ports []string
+	for n := 0; n <= 70000; n++ {
+		d := fmt.Sprint(n)
+		ports = append(ports, d, "0"+d, "+"+d, "-"+d)
+	}
+	strs := func(alpha string, maxLen int) []string {
+		out := []string{""}
+		level := []string{""}
+		for l := 1; l <= maxLen; l++ {
+			var next []string
+			for _, p := range level {
+				for i := 0; i < len(alpha); i++ {
+					next = append(next, p+alpha[i:i+1])
+				}
+			}
+			out = append(out, next...)
+			level = next
+		}
+		return out
+	}
+	pl, hl := 4, 4
+	if !r.Quick() {
+		pl, hl = 7, 6
+	}
+	ports = append(ports, strs("01569+- ", pl)...)
+	var hosts []string
+	oct := []string{"0", "1", "9", "10", "99", "100", "199", "200", "249", "250", "255", "256", "300"}
+	for _, a := range oct {
+		for _, b := range oct {
+			for _, c := range oct {
+				for _, d := range oct {
+					hosts = append(hosts, a+"."+b+"."+c+"."+d)
+				}
+			}
+		}
+	}
+	hosts = append(hosts, strs("01259.:afg% ", hl)...)
+	r.Note("bounded_port_strings", int64(len(ports)))
+	r.Note("bounded_host_strings", int64(len(hosts)))
+	core.ParallelFor(len(ports), func(_, i int) {
+		if r.Expired() {
+			return
+		}
+		c17Eval(r, map[string]string{"host": "1.2.3.4", "port": ports[i]}, false, "bounded-port", false)
+	})
+	core.ParallelFor(len(hosts), func(_, i int) {
+		if r.Expired() {
+			return
+		}
+		c17Eval(r, map[string]string{"host": hosts[i], "port": "80"}, false, "bounded-host", false)
+	})
 }
